@@ -24,6 +24,8 @@ for line in sys.stdin:
         r = de.call_decoder(q["x"], q["compat"], False)
     elif q["op"] == "encode":
         r = de.call_encoder(q["x"], q["strict"])[:2]
+    elif q["op"] == "preset":
+        r = sf.get_preset_constraints(q["x"])
     else:
         r = sorted(sf.get_semantic_robust_alphabet())
     print(json.dumps(r)); sys.stdout.flush()
@@ -44,18 +46,34 @@ def main():
     held = []
     set_mut = False
     steps = 0
+
+    def do_set(arg):
+        """set_semantic_constraints; whatever it hands back to the caller is an object the caller may edit"""
+        ret = sf.set_semantic_constraints(arg)
+        if isinstance(ret, (dict, set, list)):
+            held.append(ret)
+            if rng.random() < 0.6:
+                if isinstance(ret, dict):
+                    ret["C"] = 0
+                    ret.pop("?", None)
+                    ret["Zz"] = 1
+                elif isinstance(ret, set):
+                    ret.add("[junk]")
+                else:
+                    ret.append("[junk]")
+        return ret
     elements = ["C", "N", "O", "S", "P", "F", "Cl", "Fe", "N+1", "O-1", "C-1", "S+1", "B", "Si", "H"]
     for _ in range(length):
         steps += 1
         r = rng.random()
         cur = sf.get_semantic_constraints()
         if r < 0.12:
-            sf.set_semantic_constraints(rng.choice(["default", "octet_rule", "hypervalent"]))
+            do_set(rng.choice(["default", "octet_rule", "hypervalent"]))
             set_mut = False
         elif r < 0.25:
             t = {k: rng.choice([0, 1, 2, 3, 4, 5, 6, 9]) for k in rng.sample(elements, rng.randint(0, 8))}
             t["?"] = rng.choice([1, 2, 4, 8, 12])
-            sf.set_semantic_constraints(t)
+            do_set(t)
             held.append(t)
             set_mut = False
         elif r < 0.29 and held and any(isinstance(o, dict) and "?" in o for o in held):
@@ -63,7 +81,7 @@ def main():
             o = rng.choice([o for o in held if isinstance(o, dict) and "?" in o])
             o[rng.choice(["C", "N", "O", "S", "?"])] = rng.choice([1, 2, 3, 4, 6])
             try:
-                sf.set_semantic_constraints(o)
+                do_set(o)
             except ValueError:
                 pass
             set_mut = False
@@ -79,7 +97,11 @@ def main():
         elif r < 0.40:
             held.append(sf.get_semantic_constraints())
         elif r < 0.45:
-            held.append(sf.get_preset_constraints(rng.choice(["default", "octet_rule", "hypervalent"])))
+            nm = rng.choice(["default", "octet_rule", "hypervalent"])
+            pr = sf.get_preset_constraints(nm)
+            if pr != fresh({"op": "preset", "table": "default", "x": nm}):
+                print("DIVERGE " + json.dumps({"what": "preset", "message": "get_preset_constraints(%r) = %r differs from a fresh interpreter" % (nm, pr)}))
+            held.append(pr)
         elif r < 0.52:
             a = sf.get_semantic_robust_alphabet()
             want = fresh({"op": "alphabet", "table": cur})
